@@ -12,9 +12,9 @@ RULES = {
     "C05": [("sa.rules.b3", "r_C05_C10"), ("sa.rules.c05", "r_C05cde"), ("sa.rules.c14", "r_C14h"), ("sa.rules.c14", "r_C14inst"), ("sa.rules.b3", "r_C16a"), ("sa.rules.cpn", "r_processnode"), ("sa.rules.c05e", "r_C05children")],
     "C06": [("sa.rules.b7", "r_origin"), ("sa.rules.cmisc", "r_C06bcd"), ("sa.rules.c05", "r_C05cde"), ("sa.rules.c17", "r_C01h"), ("sa.rules.cpn", "r_processnode"), ("sa.rules.cdrv", "r_driver")],
     "C07": [("sa.rules.b3", "r_C07"), ("sa.rules.b6", "r_C03bc"), ("sa.rules.c03", "r_C03fgh"), ("sa.rules.c07", "r_C07eval"), ("sa.rules.c05", "r_none_tests"), ("sa.rules.c01", "r_C01i"), ("sa.rules.c25", "r_who_writes"), ("sa.rules.b3", "r_C16a"), ("sa.rules.c01e", "r_C01visitors"), ("sa.rules.cres", "r_resolver"), ("sa.rules.cpn", "r_processnode"), ("sa.rules.c05e", "r_C05children"), ("sa.rules.c32", "r_C32")],
-    "C08": [("sa.rules.b3", "r_C08_C34"), ("sa.rules.cmeta", "r_initobj"), ("sa.rules.cres", "r_resolver"), ("sa.rules.cpn", "r_processnode")],
+    "C08": [("sa.rules.b3", "r_C08_C34"), ("sa.rules.cmeta", "r_initobj"), ("sa.rules.cres", "r_resolver"), ("sa.rules.cpn", "r_processnode"), ("sa.rules.c09e", "r_extrel")],
     "C09": [("sa.rules.b3", "r_C09"), ("sa.rules.b3", "r_C07"), ("sa.rules.cmisc", "r_C13d_C34f_C09d"), ("sa.rules.b3", "r_C08_C34"), ("sa.rules.cres", "r_resolver"), ("sa.rules.c10e", "r_C10eval"), ("sa.rules.cpn", "r_processnode"), ("sa.rules.c11e", "r_C11eval"), ("sa.rules.cdrv", "r_driver"), ("sa.rules.c09e", "r_extrel")],
-    "C10": [("sa.rules.b3", "r_C05_C10"), ("sa.rules.c05", "r_none_tests"), ("sa.rules.b6", "r_C03bc"), ("sa.rules.c03", "r_C03fgh"), ("sa.rules.c01", "r_C01i"), ("sa.rules.c01e", "r_C01visitors"), ("sa.rules.c10e", "r_C10eval"), ("sa.rules.c05e", "r_C05children"), ("sa.rules.c14", "r_C14inst"), ("sa.rules.cres", "r_resolver")],
+    "C10": [("sa.rules.b3", "r_C05_C10"), ("sa.rules.c05", "r_none_tests"), ("sa.rules.b6", "r_C03bc"), ("sa.rules.c03", "r_C03fgh"), ("sa.rules.c01", "r_C01i"), ("sa.rules.c01e", "r_C01visitors"), ("sa.rules.c10e", "r_C10eval"), ("sa.rules.c05e", "r_C05children"), ("sa.rules.c14", "r_C14inst"), ("sa.rules.cres", "r_resolver"), ("sa.rules.cpn", "r_processnode")],
     "C11": [("sa.rules.b3", "r_C03de_C11a_C17bc"), ("sa.rules.c11", "r_C11b"), ("sa.rules.c11", "r_C11de"), ("sa.rules.c32", "r_C32c"), ("sa.rules.c05", "r_none_tests"), ("sa.rules.c12", "r_C12f"), ("sa.rules.c12e", "r_C12eval"), ("sa.rules.c11e", "r_C11eval")],
     "C12": [("sa.rules.b1", "r_C12a"), ("sa.rules.c12", "r_C12b"), ("sa.rules.c05", "r_C12c"), ("sa.rules.c11", "r_C11de"), ("sa.rules.c12", "r_C12f"), ("sa.rules.c12e", "r_C12eval")],
     "C13": [("sa.rules.b3", "r_C13"), ("sa.rules.c13", "r_C13eval"), ("sa.rules.cmisc", "r_C13d_C34f_C09d"), ("sa.rules.cmisc", "r_C13e"), ("sa.rules.c04", "r_C04defaults"), ("sa.rules.c17", "r_C18i"), ("sa.rules.b3", "r_C28b_C33b_C30bc"), ("sa.rules.cmeta", "r_mmapi"), ("sa.rules.cpn", "r_processnode"), ("sa.rules.cdrv", "r_driver")],
@@ -63,7 +63,7 @@ ALSO = {
     # the parent link of an object of a user class is a collected attribute: it is lost when the instrumentation ends while a load is still building objects
     "C05": {"C14": ("C14.j", "C14.m", "C14.p"), "C16": ("C16.a",)},
     # a reference list / an attribute a user class shadows at class level is shared by all objects (C08: order of one object's references; C14: __init__ arguments)
-    "C08": {"C01": ("C01.j",)},
+    "C08": {"C01": ("C01.j",), "C09": ("C09.f",)},
     "C06": {"C05": ("C05.f",), "C01": ("C01.h",)},
     # the CLI prints file:line:col of the error it gets
     "C30": {"C33": ("C33.b", "C33.a",)},
@@ -82,7 +82,7 @@ ALSO = {
     # C16 'each load ... equal to a fresh process state, also after failing loads': instrumentation / storage / repository cleanup clauses
     "C16": {"C01": ("C01.d", "C01.h",), "C15": ("C15.c", "C15.d", "C15.h", "C15.j", "C15.k", "C15.m"), "C14": ("C14.a", "C14.f", "C14.i", "C14.j", "C14.c", "C14.k"), "C18": ("C18.k",)},
     # C10 'ending in an object of the target type': the conformance test textx_isinstance
-    "C10": {"C03": ("C03.c", "C03.h",), "C01": ("C01.i",), "C14": ("C14.m", "C14.p"), "C05": ("C05.h",), "C07": ("C07.e",)},
+    "C10": {"C03": ("C03.c", "C03.h",), "C01": ("C01.i",), "C14": ("C14.m", "C14.p"), "C05": ("C05.h", "C05.g"), "C07": ("C07.e",)},
     # the type a (possibly qualified) reference names is kept over repeated assignments
     "C25": {"C01": ("C01.i",)},
 }
